@@ -112,6 +112,7 @@ var panics = []panicKind{
 	{"map", func() any { return map[string]int{"a": 1} }, "", "", false, true},
 	{"struct holding a slice", func() any { return struct{ P []byte }{[]byte("x")} }, "", "", false, true},
 	{"func", func() any { return func() {} }, "", "", false, true},
+	{"error wrapping http.ErrAbortHandler", func() any { return fmt.Errorf("upstream gone: %w", http.ErrAbortHandler) }, "", "", false, true},
 }
 
 const (
@@ -329,8 +330,15 @@ func (wd *world) serve(rs *reqSpec) (code int, escaped any) {
 		}
 		code = rec.Code
 	}()
-	wd.mux.ServeHTTP(rec, &http.Request{Method: rs.method, URL: &url.URL{Path: rs.uri}, RequestURI: rs.uri, RemoteAddr: rs.remote, Header: http.Header{}})
+	// like net/http's own response, the writer offers io.ReaderFrom (io.Copy prefers it)
+	wd.mux.ServeHTTP(readerFromRecorder{rec}, &http.Request{Method: rs.method, URL: &url.URL{Path: rs.uri}, RequestURI: rs.uri, RemoteAddr: rs.remote, Header: http.Header{}})
 	return
+}
+
+type readerFromRecorder struct{ *httptest.ResponseRecorder }
+
+func (r readerFromRecorder) ReadFrom(src io.Reader) (int64, error) {
+	return io.Copy(struct{ io.Writer }{r.ResponseRecorder}, src)
 }
 
 // judge checks the records belonging to one request (selected by uri).
